@@ -1066,6 +1066,8 @@ def run(ctx):
     rng = random.Random(ctx["seed"] * 7907 + 18)
     res = Result("C18")
     res.rule = RULE
+    import pycode  # translator validation: generated Lean definitions vs the real functions (harness/pycode.py)
+    pycode.check(res, random.Random(ctx["seed"] * 7919 + 77), ctx["tier"], ["schedule"])
     corpus = [json.loads(ln) for _, ln in load_corpus("C18")]
     set_cases = [c for c in corpus if c.get("part") == "set"] + list(gen_set_cases(rng, ctx["tier"]))
     commit_cases = [c for c in corpus if c.get("part") == "commit"] + list(gen_commit_cases(rng, ctx["tier"]))
